@@ -113,3 +113,39 @@ fn k_topic_name() {
     let s: &str = unsafe { std::str::from_utf8_unchecked(&buf[..bl]) };
     assert!(TopicName::is_invalid(s) == !oracle_name(&cs, cl), "C18:TopicName.is_invalid:equals-standard-rule");
 }
+
+/// `$share/` / `$SYS/` prefix reporting of accepted topic names (bounded cross-check of the Verus contracts of
+/// TopicName::is_shared / is_sys, which rely on a trusted `starts_with` wrapper): the prefix itself, the prefix minus its
+/// last character, and the prefix plus one symbolic character.
+fn check_name_prefix(prefix: &str, is_share: bool) {
+    let mut buf = [0u8; 64];
+    let mut cs = ['x'; 24];
+    let mut bl = 0;
+    let mut cl = 0;
+    for c in prefix.chars() { cs[cl] = c; cl += 1; bl += c.encode_utf8(&mut buf[bl..]).len(); }
+    let extra: bool = kani::any();
+    if extra {
+        let a: usize = kani::any();
+        kani::assume(a < ALPHA.len());
+        let c = ALPHA[a];
+        kani::assume(c != '+' && c != '#' && c != '\0');
+        cs[cl] = c; cl += 1; bl += c.encode_utf8(&mut buf[bl..]).len();
+    }
+    let s: &str = unsafe { std::str::from_utf8_unchecked(&buf[..bl]) };
+    let name = TopicName::try_from(s.to_owned());
+    assert!(name.is_ok(), "C18:TopicName.try_from:accepts-names-without-wildcards");
+    let name = name.unwrap();
+    let full = if is_share { "$share/" } else { "$SYS/" };
+    let has = bl >= full.len() && &buf[..full.len()] == full.as_bytes();
+    if is_share { assert!(name.is_shared() == has, "C18:TopicName.is_shared:equals-prefix-test"); }
+    else { assert!(name.is_sys() == has, "C18:TopicName.is_sys:equals-prefix-test"); }
+    assert!(&*name == s, "C18:TopicName.deref:returns-the-original-text");
+}
+//@ id=topicname.prefix.share props=C18 kind=bounded("$share/"|"$share"+<=1char) tier=quick
+#[kani::proof]
+#[kani::unwind(12)]
+fn k_name_prefix_share() { let full: bool = kani::any(); check_name_prefix(if full { "$share/" } else { "$share" }, true); }
+//@ id=topicname.prefix.sys props=C18 kind=bounded("$SYS/"|"$SYS"+<=1char) tier=quick
+#[kani::proof]
+#[kani::unwind(12)]
+fn k_name_prefix_sys() { let full: bool = kani::any(); check_name_prefix(if full { "$SYS/" } else { "$SYS" }, false); }
